@@ -56,6 +56,63 @@ func c19r8(p *model.Prog, r *report.Result) {
 			r.Check(good, "C19.R8", fkey(fn, "zero-run", "reset-on-nonzero"), p.Pos(ph.Pos()), "counter incremented or reset on every path", "the zero-run counter survives a non-zero byte on some path: byte patterns such as 00 01 00 01 inside a NAL unit are taken for a start code; SPS/PPS/IDR units that contain them are split and bytes dropped")
 		}
 	}
+	if n == 0 {
+		// another algorithm: the 3-byte start code is located by a library search
+		// (bytes.Index(.., NaluStartCode3)); then every zero byte directly in front of the match
+		// belongs to the start code, so a loop must walk back over them (position - 1 and
+		// length + 1 per round) - a fixed look at one preceding byte leaves the surplus zeros of a
+		// longer run in the previous NAL unit
+		searches := false
+		for _, ci := range model.AllCalls(fn) {
+			if o := model.CalleeObj(ci.Common()); o != nil && o.Pkg() != nil && o.Pkg().Path() == "bytes" && o.Name() == "Index" {
+				if g, isG := loadOfGlobal(ci.Common().Args[1]); isG && g.Name() == "NaluStartCode3" {
+					searches = true
+				}
+			}
+		}
+		if searches {
+			walksBack := false
+			for _, l := range model.Loops(fn) {
+				dec, inc := false, false
+				for _, in := range l.Header.Instrs {
+					ph, ok := in.(*ssa.Phi)
+					if !ok {
+						continue
+					}
+					for _, lf := range phiLeaves(ph, l) {
+						if bo, isB := lf.(*ssa.BinOp); isB && bo.X == ssa.Value(ph) {
+							if k, isK := model.ConstInt(bo.Y); isK && k == 1 {
+								if bo.Op == token.SUB {
+									dec = true
+								}
+								if bo.Op == token.ADD {
+									inc = true
+								}
+							}
+						}
+					}
+				}
+				// the loop's exit test looks at a byte of the input being zero
+				testsZero := false
+				for b := range l.Body {
+					if iff, isIf := b.Instrs[len(b.Instrs)-1].(*ssa.If); isIf {
+						if x, k, op, _, okc := constCmp(iff.Cond); okc && k == 0 && (op == token.EQL || op == token.NEQ) {
+							if u, isU := model.Unwrap(x).(*ssa.UnOp); isU {
+								if _, isIA := u.X.(*ssa.IndexAddr); isIA {
+									testsZero = true
+								}
+							}
+						}
+					}
+				}
+				if dec && inc && testsZero {
+					walksBack = true
+				}
+			}
+			r.Check(walksBack, "C19.R8", fkey(fn, "zero-run", "walk-back-over-all-zeros"), p.Pos(fn.Pos()), "start code found by library search, all preceding zero bytes counted by a loop", "after the 3-byte start code is found, the zero bytes in front of it are not all counted into the start code (no loop walks back over them): with four or more zero bytes before the 01, the surplus zeros stay at the end of the previous NAL unit - an SPS or PPS gains trailing 00 bytes")
+			return
+		}
+	}
 	if n != 1 {
 		r.Bad("C19.R8", fkey(fn, "zero-run", "floor"), p.Pos(fn.Pos()), "the zero-run counter of the scanning loop was not found")
 	}
